@@ -32,6 +32,7 @@ import (
 	"github.com/libsv/go-bt/v2/unlocker"
 
 	"verif/harness/common"
+	"verif/harness/interpgen"
 	"verif/harness/txgen"
 )
 
@@ -91,10 +92,19 @@ func p2pkh(k key) []byte {
 }
 
 // inscription: the library's Inscribe on a scratch transaction, with the P2PKH script as prefix
-func inscription(k key, ctype string, data []byte) []byte {
+// tail: optional enriched OP_RETURN data appended by the library after the envelope (only usable after
+// Genesis, where a top-level OP_RETURN ends the script successfully). Tail lengths 1..4 bytes after the
+// OP_RETURN matter: the script code of OP_CHECKSIG is the re-serialised parsed script, tail included.
+var allowTail bool
+
+func inscription(k key, ctype string, data []byte, tail [][]byte) []byte {
 	pre := bscript.NewFromBytes(p2pkh(k))
 	scratch := bt.NewTx()
-	if err := scratch.Inscribe(&bscript.InscriptionArgs{LockingScriptPrefix: pre, Data: data, ContentType: ctype}); err != nil {
+	args := &bscript.InscriptionArgs{LockingScriptPrefix: pre, Data: data, ContentType: ctype}
+	if allowTail && len(tail) > 0 {
+		args.EnrichedArgs = &bscript.EnrichedInscriptionArgs{OpReturnData: tail}
+	}
+	if err := scratch.Inscribe(args); err != nil {
 		panic(err)
 	}
 	return *scratch.Outputs[0].LockingScript
@@ -312,7 +322,12 @@ func buildTx(r *common.Rand, sh shape, kind string) built {
 		}
 		var lock []byte
 		if kd == "inscription" {
-			lock = inscription(k, []string{"text/plain", "a/b", ""}[r.Intn(3)], r.Bytes(r.Intn(12)))
+			tails := [][][]byte{nil, nil, {{0xaa}}, {{}}, {{0xaa, 0xbb}}, {{0x01}, {0x02, 0x03}}, {r.Bytes(3)}}
+			tail := tails[r.Intn(len(tails))]
+			if i == sh.idx {
+				tail = nil // the signed position keeps the exact template shape the acceptance theorem is stated for
+			}
+			lock = inscription(k, []string{"text/plain", "a/b", ""}[r.Intn(3)], r.Bytes(r.Intn(12)), tail)
 		} else {
 			lock = p2pkh(k)
 		}
@@ -468,6 +483,7 @@ type twin struct {
 
 func runCase(r *common.Rand, sh shape, kind string, ht uint8, flags uint32, viaFillAll bool, emit bool) {
 	forkid := ht&0x40 != 0
+	allowTail = flags&interpgen.FGenesis != 0
 	b := buildTx(r, sh, kind)
 	via := "FillInput"
 	if viaFillAll {
@@ -482,6 +498,9 @@ func runCase(r *common.Rand, sh shape, kind string, ht uint8, flags uint32, viaF
 		return
 	}
 	tw.Tx = s
+	if forkid {
+		inMemorySpentValue(s, sh.idx, flags, tw)
+	}
 	// every input: the unlocking script is push(sig ++ [requested type]) push(pubkey); the interpreter accepts
 	type verEntry struct {
 		pk, sig, digest []byte
@@ -629,4 +648,28 @@ func main() {
 	}
 	c.Stats.Rule = "each case: a transaction shape (inputs 1..4, outputs 0..4, signed position; quick: 12 shapes covering idx<nouts, idx=nouts-1, idx=nouts, idx>nouts; thorough: all 50, four rounds of fresh keys and fields) x one of the 6 FORKID types (flags FORKID|GENESIS) or 6 legacy types (flags none / GENESIS) x P2PKH or P2PKH-inscription previous output (built with the library: NewP2PKHFromPubKeyBytes, Tx.Inscribe), fresh seeded keys per input, random fields, pairwise distinct outputs; all inputs signed through unlocker.Simple (tx.FillInput; tx.FillAllInputs for ALL|FORKID on every other shape), every input run through the real interpreter; then EVERY single-field mutation at EVERY position (version, locktime, per input txid/vout/sequence, per output value/script, output insert at 0..n and remove, input insert at 0..n and remove (not the signed one), spent value, spent script (+OP_NOP; inscription payload byte)) applied to a copy, interpreter re-run on the signed input and preimage recomputed. A case is distinct by (kind, type, shape, position, preimage) and non-trivial when at least one mutation was evaluated; Coq re-computes all preimages, the table and the interpreter model verdicts."
 	c.Finish()
+}
+
+// inMemorySpentValue: the transaction object as the signer left it (the signed input still records the
+// spent output's script and value) verified against a previous output whose value was changed — the
+// FORKID digest commits to the spent value, so only the original value may be accepted, whatever the
+// object remembers. Values: the original, 0, original-1, original+1.
+func inMemorySpentValue(s txgen.TxSpec, i int, flags uint32, tw twin) {
+	orig := s.Ins[i].Sats
+	for _, v := range []uint64{orig, 0, orig - 1, orig + 1} {
+		tx := txgen.Build(s)
+		prev := &bt.Output{Satoshis: v, LockingScript: bscript.NewFromBytes(common.Unhex(s.Ins[i].Prev))}
+		var err error
+		panicked, pm := common.Safely(func() {
+			err = interpreter.NewEngine().Execute(append(opts(flags), interpreter.WithTx(tx, i, prev))...)
+		})
+		switch {
+		case panicked:
+			c.Violate("Engine.Execute/panic", pm, tw)
+		case v == orig && err != nil:
+			c.Violate("sign-verify/rejects-own-signature(in-memory tx)", err.Error(), tw)
+		case v != orig && err == nil:
+			c.Violate("mutation/spent-value/accepted-but-committed(in-memory tx)", fmt.Sprintf("spent value %d instead of %d accepted", v, orig), tw)
+		}
+	}
 }
